@@ -131,7 +131,7 @@ theorem tr_step {s s' : St} {t : Tid} {e : Ev} (h : Tr s t e s') : step s t e = 
   cases h with
   | pdt k hc hd hm hh =>
     have : k ∈ s.created ∧ k ∉ s.dead ∧ (∀ x ∈ s.maps.objs, x.2 ≠ k) ∧ (∀ h ∈ s.held, h.2 ≠ k) := ⟨hc, hd, hm, hh⟩
-    cases hp : s.pc t <;> simp only [step, hp] <;> exact if_pos this
+    cases hp : s.pc t <;> simp only [step] <;> exact if_pos this
   | callNew op k hp hg hn hf => simp [step, hp, hg, hn, hf]
   | call op hp hg hn => simp [step, hp, hg, hn]
   | rel k hp hh => simp [step, hp, hh]
@@ -442,7 +442,7 @@ theorem mem_heldAfter_res {t : Tid} {op : Op} {r : Res} {held : List (Tid × Obj
   simp only [heldAfter, List.mem_append, List.mem_map]
   exact Or.inl ⟨k, h, rfl⟩
 
-theorem ainv_tr {s s' : St} {t : Tid} {e : Ev} (hw : WF s.maps) (h : AInv s) (htr : Tr s t e s') : AInv s' := by
+theorem ainv_tr {s s' : St} {t : Tid} {e : Ev} (h : AInv s) (htr : Tr s t e s') : AInv s' := by
   cases htr with
   | pdt k hc hd hm hh =>
     obtain ⟨h1, h2, h3, h4, h5, h6, h7⟩ := h
@@ -519,7 +519,7 @@ theorem ainv_tr {s s' : St} {t : Tid} {e : Ev} (hw : WF s.maps) (h : AInv s) (ht
     obtain ⟨h1, h2, h3, h4, h5, h6, h7⟩ := h
     have hnew : ∀ x ∈ (apply s.maps op).1.objs, x.2 ∈ s.created ∧ x.2 ∉ s.dead := by
       intro x hx
-      rcases apply_objs_ids hw hx with ⟨y, hy, hyx⟩ | hn
+      rcases apply_objs_ids hx with ⟨y, hy, hyx⟩ | hn
       · rw [← hyx]; exact ⟨h2 y hy, h5 y hy⟩
       · have := h6 t op x.2 hp hn
         exact ⟨h1 (t, x.2) this, h4 (t, x.2) this⟩
@@ -590,7 +590,7 @@ theorem inv_init : Inv init := ⟨lk_init, hinv_init, ainv_init⟩
 
 theorem inv_step (s : St) (t : Tid) (e : Ev) (s' : St) (hi : Inv s) (hs : step s t e = some s') : Inv s' :=
   have htr := step_tr hs
-  ⟨lk_tr hi.lk htr, hinv_tr hi.h htr, ainv_tr hi.h.wf hi.a htr⟩
+  ⟨lk_tr hi.lk htr, hinv_tr hi.h htr, ainv_tr hi.a htr⟩
 
 theorem inv_reachable {s : St} (h : Reachable s) : Inv s := by
   obtain ⟨es, hes⟩ := h
